@@ -230,13 +230,16 @@ class FnAnalysis:
 
     def _prepare(self):
         defs = {}
+        self.def_sites = {}   # local -> [(block, rvalue or {"call": term})]
         for bb, blk in enumerate(self.body.blocks):
             for s in blk["stmts"]:
                 if s["k"] == "assign" and not s["place"]["p"]:
                     defs.setdefault(s["place"]["l"], []).append(s["rv"])
+                    self.def_sites.setdefault(s["place"]["l"], []).append((bb, s["rv"]))
             t = blk["term"]
             if t["k"] == "call" and not t["dest"]["p"]:
                 defs.setdefault(t["dest"]["l"], []).append({"call": t})
+                self.def_sites.setdefault(t["dest"]["l"], []).append((bb, {"call": t}))
         self.defs = defs
         for l, ds in defs.items():
             if len(ds) != 1:
@@ -660,6 +663,37 @@ class FnAnalysis:
                     if not p["p"]:
                         st.iv[p["l"]] = nv
             return st
+        # a materialised `a && b` / `a || b`: two definitions, one of them the constant that short-circuits
+        sites = self.def_sites.get(l, [])
+        if len(sites) == 2:
+            const_sites = [(bb, rv) for bb, rv in sites if isinstance(rv, dict) and "use" in rv and "const" in rv["use"] and isinstance(rv["use"]["const"].get("val"), bool)]
+            other = [(bb, rv) for bb, rv in sites if (bb, rv) not in const_sites]
+            if len(const_sites) == 1 and len(other) == 1 and const_sites[0][1]["use"]["const"]["val"] != truth:
+                # the value came from the other definition: that one has this truth, and so has the test that led to it
+                obb, orv = other[0]
+                tmp = None
+                if isinstance(orv, dict) and "call" in orv:
+                    self.eng.apply_bool_guard(self, st, l, truth, site=orv)
+                elif isinstance(orv, dict) and "use" in orv:
+                    q = orv["use"].get("copy") or orv["use"].get("move")
+                    if q is not None and not q["p"]:
+                        r = self.assume_bool(st, q["l"], truth, depth + 1)
+                        if r is None:
+                            return None
+                        st = r
+                preds = [p for p in self.body.predecessors()[obb] if not self.body.is_cleanup(p)]
+                if len(preds) == 1:
+                    pt = self.body.term(preds[0])
+                    if pt["k"] == "switch" and pt.get("discr_ty") == "bool":
+                        q = pt["discr"].get("copy") or pt["discr"].get("move")
+                        zero = [c[1] for c in pt["cases"] if c[0] == 0]
+                        took_true = not (zero and zero[0] == obb)
+                        if q is not None and not q["p"] and took_true == truth:
+                            r = self.assume_bool(st, q["l"], truth, depth + 1)
+                            if r is None:
+                                return None
+                            st = r
+                return st
         # boolean produced by a call with a known "true implies" summary
         self.eng.apply_bool_guard(self, st, l, truth)
         return st
@@ -963,5 +997,53 @@ class Engine:
                 continue
             return
 
-    def apply_bool_guard(self, fa, st, l, truth):
+    def apply_bool_guard(self, fa, st, l, truth, site=None):
+        """Booleans produced by `range.contains(&x)` with constant bounds refine x like the two comparisons they stand for."""
+        from facts import callee_name
+        cands = [site] if site is not None else (fa.defs.get(l, []) if len(fa.defs.get(l, [])) == 1 else [])
+        for d in cands:
+            if not isinstance(d, dict) or "call" not in d:
+                continue
+            t = d["call"]
+            n = callee_name(t)
+            if not (n.endswith("::contains") and "ops::range::Range" in n and len(t["args"]) == 2):
+                continue
+            rp = t["args"][0].get("copy") or t["args"][0].get("move")
+            xp = t["args"][1].get("copy") or t["args"][1].get("move")
+            if rp is None or xp is None:
+                continue
+            rl = fa.root_local(rp)
+            xr = fa.root_local(xp)
+            if rl is None or xr is None:
+                continue
+            lo = hi = None
+            inclusive = "RangeInclusive" in n
+            for rd in fa.defs.get(rl, []):
+                if isinstance(rd, dict) and "call" in rd and callee_name(rd["call"]).endswith("RangeInclusive::<Idx>::new"):
+                    a = [fa.read_op(st, x) for x in rd["call"]["args"]]
+                    if len(a) == 2 and all(v is not None and not v.empty() and v.lo == v.hi for v in a):
+                        lo, hi = a[0].lo, a[1].lo
+                elif isinstance(rd, dict) and "agg" in rd and "Range" in str(rd["agg"].get("adt", "")):
+                    a = [fa.read_op(st, x) for x in rd.get("ops", [])]
+                    if len(a) == 2 and all(v is not None and not v.empty() and v.lo == v.hi for v in a):
+                        lo, hi = a[0].lo, a[1].lo
+                elif isinstance(rd, dict) and "use" in rd and "const" in rd["use"]:
+                    v = rd["use"]["const"].get("val")
+                    while isinstance(v, dict) and "$ref" in v and len(v) == 1:
+                        v = v["$ref"]
+                    if isinstance(v, dict) and "Range" in str(v.get("$ty", "")) and isinstance(v.get("start"), int) and isinstance(v.get("end"), int):
+                        lo, hi = v["start"], v["end"]
+            if lo is None:
+                continue
+            if not inclusive:
+                hi -= 1
+            cur = fa.read_place(st, {"l": xr, "p": []})
+            if cur is None:
+                continue
+            if truth:
+                st.iv[xr] = cur.meet(Iv(lo, hi))
+            elif cur.lo >= lo:
+                st.iv[xr] = cur.meet(Iv(hi + 1, INF))
+            elif cur.hi <= hi:
+                st.iv[xr] = cur.meet(Iv(-INF, lo - 1))
         return
